@@ -427,7 +427,7 @@ class POP3CommandHandler:
         await self.client.push(
             f"+OK {size} octets\r\n".encode("latin-1")
             + msg_bytes
-            + b"\r\n.\r\n"
+            + b".\r\n"
         )
         return True
 
